@@ -2168,11 +2168,11 @@ pub fn run(ctx: &Ctx) {
     let depth = ctx.tier.pick(3, 5);
     let n = |q: u64, t: u64| ctx.tier.pick(q, t);
     let chk = |c: &Case| check(ctx, c);
-    ctx.campaign("scalar", n(4000, 200000), || case_strategy(depth, false, false, false), chk, encode);
-    ctx.campaign("precedence", n(2000, 100000), || case_strategy(depth, true, false, false), chk, encode);
-    ctx.campaign("lifted", n(2000, 100000), || case_strategy(2, false, false, true), chk, encode);
-    ctx.campaign("unrestricted", n(700, 30000), || case_strategy(depth, true, true, false), chk, encode);
-    ctx.campaign("unrestricted-lifted", n(400, 20000), || case_strategy(2, false, true, true), chk, encode);
+    ctx.campaign("scalar", n(40000, 1000000), || case_strategy(depth, false, false, false), chk, encode);
+    ctx.campaign("precedence", n(20000, 500000), || case_strategy(depth, true, false, false), chk, encode);
+    ctx.campaign("lifted", n(20000, 500000), || case_strategy(2, false, false, true), chk, encode);
+    ctx.campaign("unrestricted", n(7000, 150000), || case_strategy(depth, true, true, false), chk, encode);
+    ctx.campaign("unrestricted-lifted", n(4000, 100000), || case_strategy(2, false, true, true), chk, encode);
     let _ = Tier::Quick;
 }
 
